@@ -156,6 +156,11 @@ def build(workload):
         if spec.get("alias_of") is not None and spec["alias_of"] in by_id and by_id[spec["alias_of"]] is not v:
             v.pose = by_id[spec["alias_of"]].pose
     edges = [edge_from_spec(e) for e in workload["edges"]]
+    # several edges may have been given one and the same information matrix object (info = np.eye(3) reused in a loop)
+    for k, (spec, e) in enumerate(zip(workload["edges"], edges)):
+        j = spec.get("information_alias_of")
+        if j is not None and 0 <= j < k and np.shape(edges[j].information) == np.shape(e.information):
+            e.information = edges[j].information
     # ... or an edge's measurement / offset may be the very object that is some vertex's pose
     for spec, e in zip(workload["edges"], edges):
         if spec.get("estimate_alias_of") is not None and spec["estimate_alias_of"] in by_id:
@@ -586,6 +591,17 @@ def gen_opt_workload(rng, opts=None):
                 meta["asym_information"] = True
     if rng.random() < 0.3:
         rng.shuffle(edges)
+    if o["alias_poses"] and rng.random() < 2 * o["alias_poses"] and len(edges) >= 2:
+        # the user built all edges of one kind with a single information matrix object
+        first = {}
+        for k, e in enumerate(edges):
+            n = np.shape(e["information"])[0]
+            if n in first and rng.random() < 0.7:
+                e["information"] = edges[first[n]]["information"]
+                e["information_alias_of"] = first[n]
+                meta["shared_information_object"] = True
+            else:
+                first.setdefault(n, k)
     especs = []
     for e in edges:
         s = {
@@ -597,7 +613,7 @@ def gen_opt_workload(rng, opts=None):
         if "offset" in e:
             s["offset"] = pose_to_spec(e["offset"])
             s["offset_id"] = e["offset_id"]
-        for key in ("estimate_alias_of", "offset_alias_of"):
+        for key in ("estimate_alias_of", "offset_alias_of", "information_alias_of"):
             if key in e:
                 s[key] = e[key]
         especs.append(s)
